@@ -1,4 +1,5 @@
 """C13: --aggregate frequencies are exactly the per-sequence results, counted."""
+import random
 import common as cm
 import cmdlayer
 import gen
@@ -236,13 +237,30 @@ def generate(ctx):
         append = rng.random() < 0.5
         nseq = sum(1 for nm in names if nm != "REF")
         thrs = sorted(set([0.0, 1.0] + [k / nseq for k in range(1, nseq + 1)]))
+        # a window, two- or one-sided, often with a bound exactly on a position at which some record differs from the reference:
+        # the aggregate of a windowed run is the recount of the windowed per-sequence run (drawn from a PRNG of its own)
+        wr = random.Random(1000003 * g + len(samb))
+        ws, we = -1, -1
+        if wr.random() < 0.6:
+            hot = sorted({i + 1 for pr in protos for i, (a, b) in enumerate(zip(genome, pr)) if a != b})
+            ws, we = wr.randint(1, L // 2), wr.randint(L // 2, L)
+            if hot and wr.random() < 0.7:
+                we = wr.choice(hot)
+                ws = min(ws, we)
+            if hot and wr.random() < 0.5:
+                ws = wr.choice([h for h in hot if h <= we] or [ws])
+            side = wr.random()
+            if side < 0.25:
+                ws = -1
+            elif side < 0.5:
+                we = -1
         def sv(cid, aggregate, thr):
             return {"id": cid, "go": {"id": cid, "op": "samvariants", "sam": cm.b64(samb), "ref": cm.b64(refb), "anno": cm.b64(annob), "suffix": suffix,
-                                      "ref_from_file": True, "start": -1, "end": -1, "append_snps": append, "aggregate": aggregate, "threshold": thr, "threads": 2},
+                                      "ref_from_file": True, "start": ws, "end": we, "append_snps": append, "aggregate": aggregate, "threshold": thr, "threads": 2},
                     "coq": None, "skipcoq": True,
                     "meta": {"kind": "samvariants:" + ("agg" if aggregate else "perseq"), "nontrivial": aggregate, "group": g,
                              "role": "agg" if aggregate else "perseq", "nseq": nseq, "thr": thr},
-                    "sample": {"cmd": "sam variants" + (" --aggregate --threshold %r" % thr if aggregate else ""), "sam": samb.decode(),
+                    "sample": {"cmd": "sam variants --start %d --end %d" % (ws, we) + (" --aggregate --threshold %r" % thr if aggregate else ""), "sam": samb.decode(),
                                "reference": genome, "annotation": annob.decode(), "suffix": suffix, "append_snps": append}, "info": {}}
         cs.append(sv(cid, False, 0.0))
         cid += 1
